@@ -37,7 +37,7 @@ def stmt_failure(idx, pos, w, rng=None):
     rng = rng or np.random.default_rng(0)
     matcher = grm.Matcher()
     try:
-        m = matcher.affinematch(centers=pos, refineds=pos, peak_values=w, peak_elevations=w, indices=idx)
+        m = core.call_guarded(matcher.affinematch, centers=pos, refineds=pos, peak_values=w, peak_elevations=w, indices=idx)
     except Exception as e:  # noqa
         return 'affinematch raised %s: %s' % (type(e).__name__, e)
     if m.isnan():
